@@ -175,6 +175,8 @@ func runC09(c *Ctx) {
 	}
 	c.rule("R09.14", "a callback handed to a message-writer provider writes on every path (the batch framing and the one-reply-per-request count rely on 'invoked means written')")
 	c.callbackAlwaysWrites("R09.14")
+	c.rule("R09.15", "an unknown method (also an alias pointing nowhere) is answered with -32601: every read of the method table in the dispatcher is a comma-ok lookup")
+	c.descriptorFromCheckedLookup("R09.15")
 	c.rule("R09.12", "every id-bearing WebSocket request gets its response: the frame executor never blocks on something only a finishing handler releases")
 	c.executorNeverWaitsForHandlers("R09.12")
 	c.ruleOpt("R09.9", "no reply bytes live in pooled memory that is handed back before they are written")
@@ -988,9 +990,77 @@ func (c *Ctx) readerRules() {
 			c.bad(rule, construct, c.ipos(e.in), "an emitter inside the batch loop writes through the raw writer instead of the framing provider: its element appears without '[' / ',' in front of it")
 		}
 	}
-	if okAll {
-		c.ok(rule, construct, p.pos(prov.Pos()), "lazy framing provider used by every emitter in the loop; ']' iff something was emitted; no abort of the array")
+	// (d) replies come in request order: every emitter lives in the same loop over the elements (an id
+	// check done for all elements in a first loop, and the dispatch in a second one, answers the rejected
+	// elements first)
+	{
+		innermost := func(in ssa.Instruction) *ssa.BasicBlock {
+			fn := in.Parent()
+			var best *ssa.BasicBlock
+			for h := range loopHeaders(fn) {
+				if !h.Dominates(in.Block()) {
+					continue
+				}
+				// in's block must be inside h's loop: it reaches a back edge of h without leaving through h
+				inLoop := false
+				for _, pr := range h.Preds {
+					if h.Dominates(pr) && (pr == in.Block() || blockReaches(in.Block(), pr, h)) {
+						inLoop = true
+					}
+				}
+				if inLoop && (best == nil || best.Dominates(h)) {
+					best = h
+				}
+			}
+			return best
+		}
+		var first *ssa.BasicBlock
+		var firstIn ssa.Instruction
+		for _, e := range append(append([]emitCtx{}, loopDisp...), loopErr...) {
+			site := e.in
+			if len(e.ch) > 0 {
+				site = e.ch[0]
+			}
+			if site.Parent() != rd {
+				continue
+			}
+			h := innermost(site)
+			if h == nil {
+				continue
+			}
+			if first == nil {
+				first, firstIn = h, site
+			} else if h != first {
+				okAll = false
+				c.bad(rule, construct, c.ipos(site), "the batch's replies are produced in more than one loop over its elements (here and at "+c.ipos(firstIn)+"): elements answered by the earlier loop (e.g. those with an invalid id) come before the replies of elements that precede them in the request")
+			}
+		}
 	}
+	if okAll {
+		c.ok(rule, construct, p.pos(prov.Pos()), "lazy framing provider used by every emitter in the loop; ']' iff something was emitted; no abort of the array; one loop")
+	}
+}
+
+// blockReaches: b reaches target without passing through stop.
+func blockReaches(b, target, stop *ssa.BasicBlock) bool {
+	seen := map[*ssa.BasicBlock]bool{}
+	var walk func(x *ssa.BasicBlock) bool
+	walk = func(x *ssa.BasicBlock) bool {
+		if x == target {
+			return true
+		}
+		if x == stop || seen[x] {
+			return false
+		}
+		seen[x] = true
+		for _, s := range x.Succs {
+			if walk(s) {
+				return true
+			}
+		}
+		return false
+	}
+	return walk(b)
 }
 
 // arityGate: on every path that does not take the raw-params branch, the user
